@@ -52,7 +52,6 @@ def main(argv):
         raise TimeoutError("time limit %ds reached" % limit)
     signal.signal(signal.SIGALRM, on_alarm)
     signal.alarm(limit)
-
     proof_problems = []   # (theorem-or-file, message)
     timings = {}
     tq = time.time()
@@ -116,6 +115,15 @@ def main(argv):
         ctx.model = common.NullDriver()
     timings["audit_s"] = round(time.time() - tq, 2)
     tq = time.time()
+    # a changed implementation may try to allocate absurd amounts (e.g. a forged length field that
+    # is no longer rejected): turn that into a Python MemoryError instead of an OOM kill of the check
+    try:   # (set only now: the Lean toolchain itself reserves a huge address space)
+        import resource
+        lim = int(os.environ.get("VERIF_MEM_LIMIT_GB", "12")) << 30
+        resource.setrlimit(resource.RLIMIT_AS, (lim, lim))
+    except Exception:
+        pass
+
     # 4. correspondence + monitor
     infra = None
     try:
